@@ -311,13 +311,25 @@ Definition vcap (size : option Z) : Z :=
 
 (* the file methods *)
 Definition istep (disk : bytes) (h : ihandle) (o : op) : bytes * ihandle * res :=
-  if i_closed h then (disk, h, RRaise) else
+  if i_closed h then
+    match o with
+    | ONext _ =>
+      (* fileLinesIter has no guard of its own: it raises because the read on the closed descriptor
+         fails, which it reaches only with nothing buffered (fileCloseAux abandons the read-ahead);
+         a closed handle with a read-ahead is outside the model *)
+      (disk, h, match rbuf h with [] => RRaise | _ => RUnsupported end)
+    | _ => (disk, h, RRaise)
+    end
+  else
   match o with
   | ORead fs =>
     if negb (i_rd h) then (disk, h, RFail) else
     let (h', r) := ireads disk h fs [] in (disk, h', r)
   | OLines k =>
     if negb (i_rd h) then (disk, h, RFail) else
+    let (h', r) := ilines disk h k [] in (disk, h', r)
+  | ONext k =>
+    if negb (i_rd h) then (disk, h, RUnsupported) else
     let (h', r) := ilines disk h k [] in (disk, h', r)
   | OWrite ss =>
     if negb (i_wr h) then (disk, h, RFail) else
